@@ -8,6 +8,11 @@ ASSUMPTIONS = [
 ]
 
 CONF = {
+    "C17": {
+        "rule": "(i)+(iii) rapid-generated genesis values through the module's real JSON path (AppModuleBasic.ValidateGenesis, AppModule.InitGenesis/ExportGenesis): five keyed lists of size 0..8 with deliberately colliding keys in 1/3 of cases (same key, different payload), odd attester strings, denoms differing in case, tokens/addresses of any length, optional fields present/absent, empty roles, hostile scalars; oracle: validation must reject every genesis whose lists collide under the documented keys; for accepted+initialised ones export(init(g)) = g with documented defaults, lists as multisets. (ii) rapid histories (3..30 ops) on the real chain; at every 5th step and at the end export -> import into an empty chain -> raw key/value dump must be identical. non-trivial = genesis with a collision or a round-tripped genesis with non-empty registries, resp. history whose final state has used nonces, pairs and a moved counter or a pending owner; distinct by genesis JSON resp. op sequence. The listed known finding (pending owner has no genesis field) is matched by its exact signature, counted in excluded_known and the search continues behind it.",
+        "quick": {"rapid": [("TestC17Genesis", 1500, 1), ("TestC17", 200, 1)]},
+        "thorough": {"rapid": [("TestC17Genesis", 20000, 8), ("TestC17", 1500, 8)], "fuzz": [("FuzzGenesisJSON", 120)]},
+    },
     "C01": {
         "rule": "L0: rapid-generated (configuration, message, attestation plan) triples for the exported verifier: 1..8 (sometimes 16) enabled keys under six hex spellings plus decoys (garbage, compressed key, 64-byte key, second spelling, empty), threshold 1..entries, message 0..400 random bytes or well-formed, plan slots (signer enabled/disabled/never enabled; payload exact/bit-flipped/prefix/unrelated; v 0/1, 27/28 or raw; high-s twin), arrangement asc/desc/permutation, duplicate (same bytes, twin, respelled v), length edits (-k/+k bytes, one extra valid signature, one fewer), raw random bytes of length 65t, bit mutations of built attestations; oracle: ground truth by construction cross-checked against an independent reference verifier (decred recovery, x/crypto Keccak), enforced both ways (accept => reference accepts and >= t distinct enabled signers; reference accepts with canonical v => accept). L2: the same plans through receive-message and replace-message on the real chain with attesters and threshold moved by real transactions, including submissions signed before a rotation. non-trivial = attestation of exactly 65t bytes containing at least one individually valid signature of an enabled attester over the exact message; distinct by (plan, threshold, set size, spellings)",
         "quick": {"rapid": [("TestC01", 4000, 1), ("TestC01L2", 300, 1)]},
@@ -100,6 +105,12 @@ CONF = {
 ALL = ["C%02d" % i for i in range(1, 21)]
 
 MANIFEST_TEXT = {
+    "C17": {
+        "technique": "property-based testing (rapid) of genesis round-trips through the module's real JSON path with a collision model as validation oracle; export/import of states reached by generated histories compared on raw KV; native go fuzzing of genesis JSON (thorough)",
+        "level": "Exploration over generated genesis values and reached states. One known finding (pending owner not exported) is reported as KNOWN-FINDING and excluded by exact signature.",
+        "note": "Documented keys of the five lists: attester string, denom, (domain, token bytes), (domain, nonce), domain.",
+        "ref": "DESIGN.md section 3 C17",
+    },
     "C01": {
         "technique": "property-based testing (rapid) with constructed ground truth and an independent reference attestation verifier as differential oracle, at the exported verifier and through receive/replace on the real chain; native go fuzzing of attestation bytes (thorough)",
         "level": "Exploration over generated configurations, messages and adversarial attestation plans; both directions of the statement.",
